@@ -379,7 +379,9 @@ def _g_constant_zeroth(rng, tier):
 
 def _g_weighted(rng, tier):
     for nb, sz in _tables(rng, tier):
-        yield {"regularization_weights": gens.reals(rng, (len(sz),), 0.0, 1.0, special=False), "neighbors": nb, "neighbors_sizes": sz}
+        # weights over many orders of magnitude (coefficients of 1e-3 give weights of 1e-6: a floor on w^2 must show)
+        mag = 1.0 if rng.random() < 0.5 else float(rng.choice([2.0 ** -10, 2.0 ** -20, 2.0 ** -30, 2.0 ** 7]))
+        yield {"regularization_weights": mag * gens.reals(rng, (len(sz),), 0.0, 1.0, special=False), "neighbors": nb, "neighbors_sizes": sz}
 
 
 def _g_signals(extra):
